@@ -1006,7 +1006,8 @@ func (ctx Ctx) selectExpr(e *ast.SelectorExpr) coq.Expr {
 	if isFuncType {
 		m := coq.MethodName(structInfo.name, e.Sel.Name)
 		ctx.dep.addDep(m)
-		return coq.NewCallExpr(coq.GallinaIdent(m), ctx.expr(e.X))
+		// (inside the method itself this is its rec binder, as for a call)
+		return coq.NewCallExpr(ctx.coqRecurFunc(m, e.Sel), ctx.expr(e.X))
 	}
 	if ok {
 		return ctx.structSelector(structInfo, e)
